@@ -168,7 +168,7 @@ def m2(prog, ctx):
     # the verdict of EVERY alignment of a resolved read reaches its chromosome's file: the loop that sorts the resolver's output by
     # chromosome files each record unconditionally (a loser that is not written is not found by the loader of a chromosome that holds
     # only losers of the read - it then keeps its original assignment)
-    rm = prog.func(DSP, "DatasetProcessor.resolve_multimappers")
+    rm = prog.func_inlined(DSP, "DatasetProcessor.resolve_multimappers")
     res_names = {st_.targets[0].id for st_ in walk_no_nested(rm) if isinstance(st_, ast.Assign) and isinstance(st_.targets[0], ast.Name)
                  and isinstance(st_.value, ast.Call) and (call_name(st_.value) or "").endswith(".resolve")}
     filed = []
@@ -178,7 +178,7 @@ def m2(prog, ctx):
                     and isinstance(c.func.value, ast.Subscript) and src(c.func.value.slice) == src(lp.target) + ".chr_id":
                 filed.append((lp, c))
     if len(filed) != 1:
-        ctx.fail("M2", rm, rm._qualname, "records filed per chromosome", "the resolver's output is not filed per chromosome by one loop over all of it")
+        ctx.undecided("M2", rm, rm._qualname, "found %d loops filing the resolver's output per chromosome (helpers inlined), expected one" % len(filed))
     else:
         lp, c = filed[0]
         gs = [g for g in flow.guards_of(c, stop=lp)]
